@@ -1006,4 +1006,137 @@ example : okDefault ⟨.plain .I, 5, false⟩ = true ∧ okDefault ⟨.plain .q,
     okDefault ⟨.fixed, 150000, true⟩ = true ∧ storedDefault ⟨.fixed, 3, false⟩ = 300000 := by decide
 example : target (.prAdd 1 200) = some 1 := rfl
 
+/-! ### several loaded programs: instances of one class, restarts
+
+The statement "each hash-map variable behaves as an independent cell … a value written by Python or by
+the program is read back unchanged by the other side" is about *a* program; with two programs alive at
+the same time (two instances of one program class, or a program that was closed and created again) it
+must hold for each of them whatever is done with the others. -/
+
+section Several
+variable (D : DictDecl) (stack0 : Bytes) (vars : List HVar)
+
+/-- an operation on program `op.inst` leaves the maps of every other program alone -/
+theorem sysStep_other (s : Sys) (op : SOp) (i : Nat) (h : i ≠ op.inst) :
+    (sysStep D stack0 vars s op).1 i = s i := by
+  simp [sysStep, setInst, h]
+
+theorem sysStep_own (s : Sys) (op : SOp) :
+    (sysStep D stack0 vars s op).1 op.inst = (instStep D stack0 vars (s op.inst) op).1 := by
+  simp [sysStep, setInst]
+
+/-- **instances_independent**: in any interleaving of operations on any number of programs (creations and
+restarts included), program `i` ends with exactly the maps, and makes exactly the observations, of a run of
+its own operations alone — induction over the operation list. -/
+theorem instances_independent (i : Nat) : ∀ (ops : List SOp) (s : Sys),
+    (sysRun D stack0 vars s ops).1 i = (instRun D stack0 vars (s i) (ops.filter (fun o => o.inst = i))).1 ∧
+    ((sysRun D stack0 vars s ops).2.filter (fun e => e.1 = i)).map (fun e => e.2)
+      = (instRun D stack0 vars (s i) (ops.filter (fun o => o.inst = i))).2
+  | [], s => ⟨rfl, rfl⟩
+  | op :: ops, s => by
+    have ih := instances_independent i ops (sysStep D stack0 vars s op).1
+    by_cases h : op.inst = i
+    · have e : (sysStep D stack0 vars s op).1 i = (instStep D stack0 vars (s i) op).1 := by
+        rw [← h]; exact sysStep_own D stack0 vars s op
+      have e2 : (sysStep D stack0 vars s op).2 = (instStep D stack0 vars (s i) op).2 := by
+        rw [← h]; rfl
+      have hf : (op :: ops).filter (fun o => o.inst = i) = op :: ops.filter (fun o => o.inst = i) := by simp [h]
+      rw [e] at ih
+      rw [hf]
+      refine ⟨by simp only [sysRun, instRun]; exact ih.1, ?_⟩
+      simp only [sysRun, instRun, List.filter_cons, h, decide_true, if_true, List.map_cons, e2]
+      rw [ih.2]
+    · have e : (sysStep D stack0 vars s op).1 i = s i := sysStep_other D stack0 vars s op i (fun x => h x.symm)
+      have hf : (op :: ops).filter (fun o => o.inst = i) = ops.filter (fun o => o.inst = i) := by simp [h]
+      rw [e] at ih
+      rw [hf]
+      refine ⟨by simp only [sysRun]; exact ih.1, ?_⟩
+      simp only [sysRun, List.filter_cons, h, decide_false]
+      exact ih.2
+
+/-- **restart_fresh**: creating program `j` (again) succeeds, gives it an empty Dict and hash variables that hold
+their declared defaults — whatever `j` or any other program held before — and changes no other program. -/
+theorem restart_fresh (s : Sys) (j : Nat) (hn : vars.length ≤ hv_max_ordinal) (hok : ∀ x ∈ vars, okDefault x = true) :
+    (sysStep D stack0 vars s (.new j)).2 = .loaded .ok ∧
+    ((sysStep D stack0 vars s (.new j)).1 j).dict = [] ∧
+    (∀ i x, vars[i]? = some x →
+      (hvStep vars ((sysStep D stack0 vars s (.new j)).1 j).hv (.prGet i)).2 = .value (x.fmt.view (enc64 (storedDefault x)))) ∧
+    ∀ i, i ≠ j → (sysStep D stack0 vars s (.new j)).1 i = s i := by
+  have hd := hashvar_default vars hn hok
+  refine ⟨?_, ?_, ?_, fun i hi => sysStep_other D stack0 vars s (.new j) i hi⟩
+  · simp [sysStep, instStep, hd.1]
+  · simp [sysStep, instStep, setInst, SOp.inst]
+  · intro i x hx
+    have := (hd.2 i x hx).2
+    simpa [sysStep, instStep, setInst, SOp.inst] using this
+
+/-! the abstract side: one dictionary of member tuples per program -/
+
+abbrev ASys := Nat → AMap
+
+def dictOut : SOut → Option Out
+  | .dict o => some o
+  | _ => none
+
+def aSysStep (a : ASys) : SOp → ASys × Option Out
+  | .new j => (fun i => if i = j then [] else a i, none)
+  | .dict j op => (fun i => if i = j then (aStep D (a j) op).1 else a i, some (aStep D (a j) op).2)
+  | .hvar _ _ => (a, none)
+
+def aSysRun : ASys → List SOp → ASys × List (Nat × Option Out)
+  | a, [] => (a, [])
+  | a, op :: ops =>
+    ((aSysRun (aSysStep D a op).1 ops).1, (op.inst, (aSysStep D a op).2) :: (aSysRun (aSysStep D a op).1 ops).2)
+
+def SOpOk : SOp → Prop
+  | .dict _ op => OpOk D op
+  | _ => True
+
+theorem sysStep_refines (hv : D.valid = true) (hs : stack0.length = stackSize) (s : Sys) (a : ASys)
+    (hR : ∀ i, Rel D (s i).dict (a i)) (op : SOp) (hop : SOpOk D op) :
+    (∀ i, Rel D ((sysStep D stack0 vars s op).1 i).dict ((aSysStep D a op).1 i)) ∧
+    dictOut (sysStep D stack0 vars s op).2 = (aSysStep D a op).2 := by
+  cases op with
+  | new j =>
+    refine ⟨fun i => ?_, rfl⟩
+    by_cases h : i = j
+    · simp [sysStep, instStep, setInst, SOp.inst, aSysStep, h, rel_empty]
+    · simp [sysStep, setInst, SOp.inst, aSysStep, h, hR i]
+  | dict j o =>
+    obtain ⟨h1, h2⟩ := step_refines D hv stack0 hs (s j).dict (a j) (hR j) o hop
+    refine ⟨fun i => ?_, ?_⟩
+    · by_cases h : i = j
+      · simp [sysStep, instStep, setInst, SOp.inst, aSysStep, h, h1]
+      · simp [sysStep, setInst, SOp.inst, aSysStep, h, hR i]
+    · simp [sysStep, instStep, SOp.inst, aSysStep, dictOut, h2]
+  | hvar j o =>
+    refine ⟨fun i => ?_, rfl⟩
+    by_cases h : i = j
+    · simp [sysStep, instStep, setInst, SOp.inst, aSysStep, h, hR j]
+    · simp [sysStep, setInst, SOp.inst, aSysStep, h, hR i]
+
+/-- **sys_refinement**: with any number of programs, every sequence of operations (creations, restarts, Dict and
+hash-variable operations from both sides, on any program) makes on each program's Dict exactly the observations of
+one abstract dictionary of member tuples *per program*: an entry put into one program's Dict is never seen in
+another's. -/
+theorem sys_refinement (hv : D.valid = true) (hs : stack0.length = stackSize) :
+    ∀ (ops : List SOp) (s : Sys) (a : ASys), (∀ i, Rel D (s i).dict (a i)) → (∀ op ∈ ops, SOpOk D op) →
+      (∀ i, Rel D ((sysRun D stack0 vars s ops).1 i).dict ((aSysRun D a ops).1 i)) ∧
+      (sysRun D stack0 vars s ops).2.map (fun e => (e.1, dictOut e.2)) = (aSysRun D a ops).2
+  | [], s, a, hR, _ => ⟨hR, rfl⟩
+  | op :: ops, s, a, hR, hok => by
+    obtain ⟨h1, h2⟩ := sysStep_refines D stack0 vars hv hs s a hR op (hok op (by simp))
+    obtain ⟨h3, h4⟩ := sys_refinement hv hs ops _ _ h1 (fun o ho => hok o (by simp [ho]))
+    exact ⟨h3, by simp only [sysRun, aSysRun, List.map_cons, h2, h4]⟩
+
+end Several
+
+/-- non-vacuity: two programs of one class; what the first one stores is not seen by the second -/
+example : ((sysRun exD (zeros stackSize) [⟨.plain .I, 5, false⟩] emptySys
+    [.new 0, .hvar 0 (.pySet 0 9 false), .new 1, .hvar 1 (.prGet 0), .hvar 0 (.prGet 0),
+     .dict 0 (.prUpdate [10, 20, 30, 40] [7, -5, -6] 0), .dict 1 (.prLookup [10, 20, 30, 40]),
+     .dict 0 (.prLookup [10, 20, 30, 40])]).2.map fun e => e.2)
+    = [.loaded .ok, .hvar .ok, .loaded .ok, .hvar (.value 5), .hvar (.value 9), .dict (.r0 0), .dict .els,
+       .dict (.found [7, -5, -6])] := by decide +kernel
+
 end Ebv.C09
